@@ -7,8 +7,6 @@ import (
 	"os"
 	"strings"
 	"time"
-
-	"github.com/diiyw/nodis/ds/zset"
 )
 
 func main() {
@@ -69,8 +67,6 @@ type state struct {
 	inst    map[string]*instance
 	current string
 	clients map[string]*client
-	sl      *zset.VerifSL   // current bare skiplist of the sl ops
-	slz     *zset.SortedSet // current sorted set of the slz ops
 }
 
 func newState() *state { return &state{inst: map[string]*instance{}, clients: map[string]*client{}} }
@@ -83,10 +79,6 @@ func (st *state) dispatch(toks []string) (string, string) {
 		return st.apiOp(toks)
 	case "frag":
 		return fragOp(toks), ""
-	case "ll":
-		return llOp(toks), ""
-	case "wr":
-		return wrOp(toks), ""
 	case "fmtfloat", "parsefloat":
 		return floatOp(toks), ""
 	case "watch", "feed", "replicate", "watchp", "feedp", "watchx", "unwatchx":
@@ -102,10 +94,6 @@ func (st *state) dispatch(toks []string) (string, string) {
 		return st.respOp(toks)
 	case "scanall":
 		return st.scanAll(toks)
-	case "sl":
-		return st.slOp(toks)
-	case "slz":
-		return st.slzOp(toks)
 	}
 	return "bad-op", ""
 }
